@@ -4,7 +4,8 @@ import json
 import os
 import common
 
-PROPS = "RotoV.Props.C08"
+PROPS = "RotoV.Props.C08"              # T1 order_spec, T2 lowerS_trace_partial, T3 dce_preserves_trace
+PROPS_SOURCE = "RotoV.Props.C08Source"  # regenerated step skeletons of the Lowerer functions, pinned
 EXTRA = ["RotoV.Model.TraceSpec", "RotoV.Lemmas.TraceSpec", "RotoV.Model.LowerS", "RotoV.Lemmas.LowerS", "RotoV.Lemmas.LowerSim",
          "RotoV.Lemmas.Dce", "RotoV.Model.Dce", "RotoV.Props.C01Dce"]
 
@@ -20,14 +21,17 @@ def search(ctx):
 def run(ctx):
     for f in glob.glob(os.path.join(common.VERIF, "evidence", "replays", "C08-*.json")):
         os.remove(f)
-    targets = ["dce"]
-    if os.path.exists(os.path.join(common.VERIF, "extract", "src", "targets", "c08.rs")):
-        src = open(os.path.join(common.VERIF, "extract", "src", "targets", "c08.rs")).read()
-        if 'name: "c08order"' in src:
-            targets.append("c08order")
-    ctx.extract(targets)
+    ctx.extract(["dce", "c08order"])
     extra = [m for m in EXTRA if os.path.exists(os.path.join(common.LEAN, *m.split(".")) + ".lean")]
-    ctx.prove(PROPS, extra_modules=extra)
+    theorems, examples, axioms = [], 0, {}
+    for module, more in ((PROPS, extra), (PROPS_SOURCE, [])):
+        ctx.prove(module, extra_modules=more)
+        theorems += ctx.coverage.get("theorems", [])
+        examples += ctx.coverage.get("nonvacuity_examples", 0)
+        axioms.update(ctx.coverage.get("axioms", {}))
+    ctx.coverage["theorems"] = theorems
+    ctx.coverage["nonvacuity_examples"] = examples
+    ctx.coverage["axioms"] = axioms
     if ctx.build_harness("c08"):
         ctx.harness("c08", ["run", ctx.seed, ctx.tier], timeout=6000)
     ctx.trusted += [
